@@ -583,7 +583,7 @@ main (void)
     for (int q = 0; q < sc.P; ++q)
       sc.res[q] = (char **) calloc ((size_t) sc.nops + 1, sizeof (char *));
     prepare_file (&sc, dir);
-    int                 mem0 = sc_memory_status (-1);
+    int                 mem0 = sc_memory_status (sc_package_id);
     int                 rc = 0;
     long                steps = 0;
     G.active = 1;
@@ -637,7 +637,7 @@ main (void)
     }
     printf ("TRACE-END\n");
 #endif
-    printf ("END %d mem=%d\n", run, sc_memory_status (-1) - mem0);
+    printf ("END %d mem=%d\n", run, sc_memory_status (sc_package_id) - mem0);
     if (sc.pathkind == 0)
       remove (G.path);
     for (int q = 0; q < sc.P; ++q) {
@@ -697,7 +697,7 @@ main (int argc, char **argv)
       }
     }
     MPI_Barrier (MPI_COMM_WORLD);
-    int                 mem0 = sc_memory_status (-1);
+    int                 mem0 = sc_memory_status (sc_package_id);
     rank_main (rank, size, &sc);
     MPI_Barrier (MPI_COMM_WORLD);
     fprintf (outf, "RUN %d rc=0 steps=0\n", run);
@@ -707,7 +707,7 @@ main (int argc, char **argv)
       fprintf (outf, "OUT S 0 0 0\n");
       print_file (outf);
     }
-    fprintf (outf, "END %d mem=%d\n", run, sc_memory_status (-1) - mem0);
+    fprintf (outf, "END %d mem=%d\n", run, sc_memory_status (sc_package_id) - mem0);
     MPI_Barrier (MPI_COMM_WORLD);
     if (rank == 0 && sc.pathkind == 0)
       remove (G.path);
